@@ -970,14 +970,29 @@ func failedCallbacksAreNotCalledAgain(c *core.Ctx) {
 func contextErrorsKeepTheirIdentity(c *core.Ctx) {
 	p := c.P
 	n := 0
+	ncb := map[*ssa.Function]int{}
 	for _, fn := range repoFns(p) {
 		for _, b := range fn.Blocks {
 			for _, in := range b.Instrs {
 				call, ok := in.(*ssa.Call)
-				if !ok || !call.Call.IsInvoke() || call.Call.Method.Name() != "Err" || !core.IsNamed(call.Call.Value.Type(), "context", "Context") {
+				if !ok {
 					continue
 				}
-				n++
+				// a script callback's error may be the context's error too: the callback was running when the context ended
+				viaCallback := false
+				if !call.Call.IsInvoke() && call.Call.StaticCallee() == nil {
+					if nt := core.NamedOf(call.Call.Value.Type()); nt != nil && nt.Obj().Name() == "CallFunc" && nt.Obj().Pkg() != nil && core.RelPkg(nt.Obj().Pkg()) == "object" {
+						viaCallback = true
+					}
+				}
+				if !viaCallback && (!call.Call.IsInvoke() || call.Call.Method.Name() != "Err" || !core.IsNamed(call.Call.Value.Type(), "context", "Context")) {
+					continue
+				}
+				if !viaCallback {
+					n++
+				} else {
+					ncb[fn]++
+				}
 				// does the result end up among the variadic arguments of a printf-like function?
 				flattened := ""
 				seen := map[ssa.Value]bool{}
@@ -992,6 +1007,12 @@ func contextErrorsKeepTheirIdentity(c *core.Ctx) {
 						case *ssa.MakeInterface:
 							walk(x, d+1)
 						case *ssa.ChangeInterface:
+							walk(x, d+1)
+						case *ssa.Extract:
+							if x.Type().String() == "error" {
+								walk(x, d+1)
+							}
+						case *ssa.Phi:
 							walk(x, d+1)
 						case *ssa.Store:
 							// into the slot of a variadic argument slice
@@ -1029,6 +1050,11 @@ func contextErrorsKeepTheirIdentity(c *core.Ctx) {
 					}
 				}
 				walk(call, 0)
+				if viaCallback {
+					c.Check(flattened == "", core.SSAName(fn)+"|callback-error-keeps-its-identity|"+sprintf("%d", ncb[fn]), p.Pos(call.Pos()),
+						core.SSAName(fn)+" calls a script function through the VM's call function"+ife(flattened == "", " and hands its error on as it is", " and prints its error into the text of a new error with "+flattened+": when the context ended while the callback ran, what the evaluation returns is no longer the context's error (errors.Is(err, context.DeadlineExceeded) is false)"))
+					continue
+				}
 				c.Check(flattened == "", core.SSAName(fn)+"|context-error-keeps-its-identity|"+sprintf("%d", countErrCalls(fn, in)), p.Pos(call.Pos()),
 					core.SSAName(fn)+" asks the context for its error"+ife(flattened == "", " and hands it on as it is", " and prints it into the text of a new error with "+flattened+": the result is not the context's error any more (errors.Is(err, context.Canceled) is false), although cancellation is what ended the evaluation"))
 			}
